@@ -15,6 +15,7 @@ def run(ctx):
     ctx.rule("C18.3", "get_record filters on (rtype == requested, name == target); get_ip maps A->V4(address), AAAA->V6(address), anything else -> None")
     ctx.rule("C18.4", "query_nameserver is called from exactly two sites: recursive with (that ip, context.r.upstream_dns_port), forwarding with context.r.forward_address; the address parameter is what the sockets connect to")
     ctx.rule("C18.6", "the configuration reaches the resolver unchanged: ProtocolMode's FromStr table maps the four documented words to the four modes; the server copies protocol_mode, upstream_dns_port, forward_address and authoritative_only from the same-named CLI fields")
+    ctx.rule("C18.7", "an address the resolver holds is found: a glue record answers only a question of its own type (C06.9), and an empty answer from a hosts / hints zone falls through to the cache (C01.2) - decided here as well")
     ctx.rule("C18.5", "resolve() builds the resolver contexts from its own parameters; the binaries pass the CLI fields in the matching positions")
 
     f = prog.body_of(H2IP)
@@ -287,3 +288,8 @@ def run(ctx):
                    if k_ in d_ and not (A.last_field(d_[k_]) == k_ and any(x[0] == "call" and x[1].endswith("Parser::parse") for x in A.walk(d_[k_])))}
             ctx.check(not bad and all(k_ in d_ for k_ in ("protocol_mode", "upstream_dns_port", "forward_address")), "C18.6", "main:ListenArgs", "each setting is the same-named CLI field",
                       "settings taken from elsewhere: %s" % bad, m_.loc())
+    # ---------------------------------------------------------------- C18.7
+    from ..core import RuleAlias
+    from . import C06, C01
+    C06.run(RuleAlias(ctx, {"C06.9": "C18.7"}))
+    C01.run(RuleAlias(ctx, {"C01.2": "C18.7"}))
